@@ -12,6 +12,8 @@ a list of (kind, formula).  Transcribed from numba/cpython/numbers.py and core/b
 import z3
 from numba.core import types as nt
 
+_FPTOINT = [0]
+
 
 class Unsupported(Exception):
     pass
@@ -179,7 +181,12 @@ class Sem:
             if obl is not None:
                 obl.append(("fptoint-in-range", z3.And(tr >= lo, tr <= hi)))
             if self.mode == INT:
-                return Sc(tr, toty)
+                # LLVM's fptoui / fptosi are undefined outside the target range (Numba narrows through
+                # them): the result is the truncation when it fits and an unspecified value of the
+                # type otherwise - never silently "the real number"
+                _FPTOINT[0] += 1
+                junk = z3.Int("fptoint!%d" % _FPTOINT[0])
+                return Sc(z3.If(z3.And(tr >= lo, tr <= hi), tr, z3.If(z3.And(junk >= lo, junk <= hi), junk, z3.IntVal(lo))), toty)
             return Sc(z3.Int2BV(tr, toty.bitwidth), toty)
         raise Unsupported("cast %s -> %s" % (fromty, toty))
 
